@@ -42,6 +42,11 @@ func macPw(secret, username string) string {
 func newLtcredSys(_ Meta, seed int64, init any) (Sys, error) {
 	st, _ := init.(map[string]any)
 	s := &ltcredSys{kind: st["kind"].(string), secret: fmt.Sprintf(" secret-%d\n", seed), net: NewMemNet(), nport: 41000} // (white space is part of a secret)
+	if seed%2 == 1 {
+		// a secret longer than the 64-byte block of HMAC-SHA1 (such keys are hashed first): "another secret" of the
+		// mutation classes then shares its first 77 bytes with this one
+		s.secret = fmt.Sprintf(" secret-%d-%s\n", seed, strings.Repeat("k", 66))
+	}
 	// the handler is built now; credentials are minted later (a handler that remembered its
 	// construction time instead of reading the clock would show)
 	switch s.kind {
